@@ -349,7 +349,8 @@ func (p *textParser) slotAlternatives(r *TextRow, i, n int) []string {
 func (p *textParser) matchContent(line string, r *TextRow, n int) string {
 	var elems [][]string
 	sp := []string{" "}
-	if p.boxless {
+	if len(p.glyphs) == 0 {
+		// no vertical pieces at all: the slots are joined by one blank
 		for i := range p.w {
 			if i > 0 {
 				elems = append(elems, sp)
